@@ -23,6 +23,8 @@ def jobs(tier, seed):
             k += 1
             out.append({"kind": "extend", "version": v, "flavour": ["sync", "async"][k % 2], "mqtt": k % 5 == 0, "prefixes": [pn], "tier": tier})
     out.append({"kind": "suite"})
+    for v in ("2.1", "2.2"):
+        out.append({"kind": "sched", "version": v, "new_type": True, "bound": 1 if tier == "quick" else 2})
     for i in range(4 if tier == "quick" else 16):
         out.append({"kind": "failing-disk", "seed": seed, "i": i, "n": 12 if tier == "quick" else 40})
     return out
@@ -108,12 +110,19 @@ def run(job):
         return run_extend(job)
     if job.get("kind") == "failing-disk":
         return run_failing_disk(job)
+    if job.get("kind") == "sched":
+        # the poll thread handling a wake-up while a controller thread calls set_child_value (see props/c08.py)
+        from .c08 import run_sched
+        return run_sched(job)
     return run_lock_job(ID, job, normal_forms, confirm_crash=True)
 
 
 def replay(case):
     if case.get("kind") == "failing-disk":
         return run_failing_disk({"seed": 0, "i": 0, "n": 10})
+    if case.get("kind") == "sched":
+        from .c08 import run_sched
+        return run_sched({"kind": "sched", "version": case["version"], "new_type": case["new_type"], "bound": case.get("bound", 1)})
     return replay_lock(ID, case)
 
 
